@@ -873,8 +873,12 @@ where
             return Ok(None);
         }
 
-        if self.state == CollectorState::Start || self.state == CollectorState::Preamble {
+        if !self.source.has_parser()
+            && (self.state == CollectorState::Start || self.state == CollectorState::Preamble)
+        {
             // read file meta information group
+            // (unless the data set is already being read,
+            // in which case there is none to read)
             self.read_file_meta()?;
         }
 
@@ -978,8 +982,12 @@ where
             return IllegalStateInPixelSnafu.fail().map_err(From::from);
         }
 
-        if self.state == CollectorState::Start || self.state == CollectorState::Preamble {
+        if !self.source.has_parser()
+            && (self.state == CollectorState::Start || self.state == CollectorState::Preamble)
+        {
             // read file meta information group
+            // (unless the data set is already being read,
+            // in which case there is none to read)
             self.read_file_meta()?;
         }
 
